@@ -367,6 +367,8 @@ class Net:
         if policy == "unreachable":
             await asyncio.sleep(0)
             raise OSError(113, "No route to host")
+        if isinstance(policy, str) and policy.startswith("slow:"):
+            await asyncio.sleep(float(policy[5:]))       # the TCP handshake takes this long, then succeeds
         if policy == "hang":
             await loop.create_future()   # never completes; caller's wait_for cancels it
         await asyncio.sleep(0)
